@@ -280,6 +280,8 @@ def fault_injection(mon, P, rng, ndocs, i18n):
                     end = after_last_line_of_step(k + ("step", len(it["steps"]) - 1), last)
                     if it["kind"] == "scenario":
                         injections.append(("examples_outside_outline", end + 1, "    %s:" % kws["examples"][0], end + 1))
+                        # ... also a TAGGED stray Examples section (tag lines and a comment in front of it): the fault is the Examples line
+                        injections.append(("examples_outside_outline", end + 1, "    @x1 @x2\n    # why\n    @x3\n    %s:" % kws["examples"][0], end + 4))
                     if last.get("doc") is None and last.get("table") is None:
                         injections.append(("text_after_steps", end + 1, "    free text that is not a step", end + 1))
                     for si, st in enumerate(it["steps"]):
@@ -617,6 +619,20 @@ def sub_step_faults(mon, P, rng, n, i18n):
             mon.check("substeps.parsed_in_the_language_of_their_feature", got == ("ok", None) and calls == want_calls, lambda: W(want_calls=want_calls))
         else:
             mon.check("substeps.fault_reported_at_its_line", got == ("parser_error", fault_line), lambda: W(want_line=fault_line))
+        # the single-step entry point parse_step(text, language=..., filename=...): one localized step, alone or with a malformed table row
+        one = u"%sk4 single step\n" % first("given")
+        bad = one + u"  | a | b |\n  | 1 | 2 | 3 |\n"
+        for text1, want1 in ((one, ("ok", "k4 single step")), (bad, ("parser_error", 3))):
+            kw1 = {"language": lang} if i % 3 else {"language": lang, "filename": "features/one.feature"}
+            try:
+                st1 = P.parse_step(text1, **kw1)
+                got1 = ("ok", getattr(st1, "name", None))
+            except P.ParserError as ex:
+                got1 = ("parser_error", ex.line)
+            except Exception as ex:
+                got1 = ("other", repr(ex))
+            mon.case(("parse_step", lang, text1, tuple(sorted(kw1))), True)
+            mon.check("substeps.single_step_entry_point", got1 == want1, lambda: dict(language=lang, text=text1, arguments=sorted(kw1), got=got1, want=want1))
 
 
 def run(spec, mon):
